@@ -18,7 +18,7 @@ CLAIMED = {
         "operation); TLC explores all boundary sets x zero intervals of small files x all interleavings x cancellation and checks that the "
         "aggregated index equals the single-stream chain of the rolling-hash rule. The real IndexFromFile runs under a gate scheduler "
         "on generated files; the instance (boundary and null positions) is computed by an independent implementation of the rule and "
-        "Trace_ParChunker.tla validates every event, every chunk and the returned index (IDs, sizes, parameters).",
+        "Trace_ParChunker.tla validates every event, every chunk and the returned index (IDs, sizes, parameters). The real `desync make` with 1/3/8 workers is compared with the library's single-stream chunk table (CliOutcome.tla).",
    note="Trusts the independent buzhash/rule oracle (cross-checked with the casync fixture) and SHA512/256 as leaves; read fragmentation of "
         "the single-stream Chunker is covered by the Chunker driver when listed in the evidence.",
    technique="TLA+ spec + TLC model checking; trace validation of the hook-instrumented implementation under randomised/PCT schedules",
@@ -27,7 +27,7 @@ CLAIMED = {
    text="PipelineMC.tla (feeder/worker/errgroup skeleton with the ChunkStorage and Copy disciplines) is explored exhaustively over all "
         "interleavings and all fault plans with <=2-3 failing store calls; the real ChopFile/Copy/ChunkStream run over a gated "
         "fault-injecting store for every single-fault plan of small inputs and the traces are validated by Trace_Pipeline.tla, with the "
-        "real store read back after every run.",
+        "real store read back after every run. The real chop/make/tar -i/cache run against an HTTP store that fails one URL persistently and against local stores under a file-size limit; exit 0 must mean a complete store (CliOutcome.tla).",
    note="Library entry points stand for the make/chop/cache/tar -i commands; the target store's pre-existing content is assumed valid.",
    technique="TLA+ spec + TLC model checking; trace validation with fault injection at every store call",
    design="4/C06"),
@@ -40,7 +40,7 @@ CLAIMED = {
  "C17": dict(
    text="VerifyIndex.tla: TLC evaluates the batch arithmetic for every K<=120 (700 thorough) and n<=64 (batches partition the index); the real "
         "VerifyIndex is run on blobs with a single altered byte, swapped chunks, truncation and extension and its verdict compared with the "
-        "specification's; the batches actually fed must cover every index entry.",
+        "specification's; the batches actually fed must cover every index entry. Blobs contain runs of identical consecutive chunks; the real `desync verify-index` is run on equal/altered/truncated/extended files (CliOutcome.tla).",
    note="SHA512/256 decides which ranges match (leaf).",
    technique="TLA+ spec evaluated by TLC; trace validation of the real verdict and batches",
    design="4/C17"),
@@ -50,7 +50,7 @@ CLAIMED = {
         "chunks and 2-3 workers. The real AssembleFile runs under a gate scheduler on generated scenarios (all seed kinds, prior contents, "
         "actions, worker counts, emulated block cloning with chunk sizes below and above the block size); after every worker step the "
         "whole target file is read back and Trace_Assemble.tla checks frame condition, self-seed invariant, plan well-formedness, the "
-        "verdict and the promised success. Panics and hangs of the real code are violations.",
+        "verdict and the promised success. Panics and hangs of the real code are violations. The command glue is bound by running the real `desync extract` (seeds, seed directories, stale/deleted seeds, invalid-seed modes, in-place targets) and judging exit status and output by CliOutcome.tla.",
    note="FICLONERANGE is emulated in-process (generic VFS remap rules); SHA512/256 is a leaf; block devices out of scope.",
    technique="TLA+ spec + TLC model checking; trace validation with per-step state read-back under randomised/PCT schedules",
    design="4/C01"),
@@ -58,7 +58,7 @@ CLAIMED = {
    text="ReadSeeker.tla states the property as an oracle over observable results (SeekOK/ReadOK) and models IndexPos and the mount "
         "handle structurally; TLC checks that every result of the model satisfies the oracle for all small indexes, op sequences and "
         "failing-ID sets. Random op sequences on the real IndexPos and the real mount file handle (also concurrent requests on one "
-        "handle over a gated store) are recorded and every result is judged by the same oracle (Trace_ReadSeeker.tla).",
+        "handle over a gated store) are recorded and every result is judged by the same oracle (Trace_ReadSeeker.tla). The real `desync cat` with offsets and lengths is compared with the blob (CliOutcome.tla).",
    note="No kernel FUSE mount is possible in the sandbox: the node's handle read function is called directly. Well-formed indexes assumed.",
    technique="TLA+ spec (property oracle + implementation-shaped model) checked by TLC; trace validation of recorded calls",
    design="4/C09"),
@@ -75,7 +75,7 @@ CLAIMED = {
    text="StoreChain.tla is an executable reference model of the documented routing / caching / repair / failover policy; TLC checks over every "
         "chain shape on three members and every content and health pattern that the model has the documented properties. Random chains of the real "
         "wrappers over fault-injecting members (in-memory and real LocalStores with corrupted files) run random histories; result class, members "
-        "called and member contents after every operation are compared with the model. Swap under load and concurrent failover run under the gate scheduler.",
+        "called and member contents after every operation are compared with the model. Swap under load and concurrent failover run under the gate scheduler. Failover groups with all members but one failing run under the gate scheduler (hook after the switch). The chain the command line builds (`-s a -s b`, `a|b`, `-c`, `--cache-repair`, local and HTTP) is exercised with the real binary (CliOutcome.tla).",
    note="Failover-group members are assumed to hold the same chunks (documented precondition). Chains built from CLI location strings are covered through the wrapper constructors they call.",
    technique="TLA+ reference model checked by TLC; trace validation of random histories; scheduled concurrent scenarios",
    design="4/C11"),
@@ -83,7 +83,7 @@ CLAIMED = {
    text="NoBadDelivery is an invariant of the store-chain reference model (TLC, all small chains) and Stores.tla states the delivery rule per corruption "
         "class. Nine corruption classes of the stored object are applied behind real backends (LocalStore, RemoteHTTP + real handler, casync protocol "
         "with the real server and a raw peer), with verification on/off, through every wrapper, read twice, before or after an intact read; consumers "
-        "(AssembleFile, IndexPos, SparseFile) run over the poisoned store; every record is judged by the specification.",
+        "(AssembleFile, IndexPos, SparseFile) run over the poisoned store; every record is judged by the specification. The de-duplication and sparse-file clauses, which are about interleavings, are decided by including the C12 (Dedup.tla, gate scheduler) and C10 (SparseFile.tla, gated loader, transient failures) machinery.",
    note="S3/SFTP/GCS backends are not exercised offline; zstd and SHA are executed leaves.",
    technique="TLA+ reference model checked by TLC; trace validation of corruption probes on real backends",
    design="4/C03"),
@@ -100,7 +100,7 @@ CLAIMED = {
    text="HttpServer.tla states the property as a decision rule over a request row (RowOK) and an abstract model of both handlers; TLC checks the rule on the "
         "model for every configuration and request class. The complete request table (9216 rows, more strings per class in the thorough tier) is sent to "
         "the real handlers over a sandboxed store with sentinels outside it, with store calls logged and the sandbox snapshotted around every request; "
-        "every row is judged by RowOK.",
+        "every row is judged by RowOK. Doubly encoded paths are part of the table, and the real chunk-server / index-server processes are started with the authorization value given by flag, by environment, or not at all.",
    note="Handlers are driven in-process; the binaries add http.ServeMux path cleaning in front of them.",
    technique="TLA+ decision-table spec checked by TLC; exhaustive table replay on the real handlers validated by TLC",
    design="4/C15"),
@@ -108,14 +108,14 @@ CLAIMED = {
    text="HttpRetry.tla defines the outcome a caller must see for a server response script and a retry budget (Required) and the loop as implemented; TLC "
         "proves them equal and proves the statement's clauses for all scripts of length <= 4-5. The real HTTP chunk and index clients run against a "
         "scripted server with real connection resets and short bodies for every short script and budget, the real client/handler pair in all 16 "
-        "compression/verify combinations, and the real RemoteSSH store against the real `desync pull` behind a fake ssh; every record is judged by the spec.",
+        "compression/verify combinations, and the real RemoteSSH store against the real `desync pull` behind a fake ssh; every record is judged by the spec. Uploads of chunks read from stores of either format, damaged upstream objects behind a non-verifying server (DamagedAllowed, the server's own status), and the S3 transport against an in-memory S3 endpoint (S3Store.tla: outcome sets per response script and retry budget) are included.",
    note="S3/SFTP/GCS are not reachable offline. Keep-alives are off on the scripted server to exclude net/http's own transparent retries.",
    technique="TLA+ spec of the retry/outcome function checked by TLC; trace validation of recorded client calls",
    design="4/C14"),
  "C16": dict(
    text="LocalStoreFS.tla states what prune and verify must and must not remove (PruneOK, VerifyOK) over a store directory as a set of typed files; TLC checks the "
         "walk as coded against PruneOK for every small directory. Random real directories (valid/invalid chunks of both formats, temporary files, junk, "
-        "chunk-named files in foreign directories) are handed to the real Prune/Verify (library and CLI) and what disappeared / was reported is judged by the spec.",
+        "chunk-named files in foreign directories) are handed to the real Prune/Verify (library and CLI) and what disappeared / was reported is judged by the spec. S3Store.Prune runs against an in-memory S3 endpoint (paginated listings, refused DELETEs) and is judged by the same PruneOK.",
    note="Local stores only; S3 and SFTP prune/verify are not reachable offline.",
    technique="TLA+ spec checked by TLC; trace validation of real prune/verify runs",
    design="4/C16"),
@@ -123,7 +123,7 @@ CLAIMED = {
    text="LocalStoreFS.tla models what a client configured for one format may see and touch; TLC checks that no operation changes files of the other format. "
         "Random histories of a compressed and an uncompressed client (LocalStore and HTTP handler+client) over one directory are compared step by step with the "
         "model, with the directory listed by a strict parser of casync's layout; every stored object is checked to be a single standard zstd frame of the chunk "
-        "(or the raw bytes), stores are cross-read between the klauspost and the libzstd build, and casync-written fixture stores are read with both.",
+        "(or the raw bytes), stores are cross-read between the klauspost and the libzstd build, and casync-written fixture stores are read with both. Chunks written with libzstd's streaming compressor (as casync does: no content size, 2 MiB window) are read with both builds.",
    note="zstd framing and decoding are executed leaves (independent frame walker, two implementations).",
    technique="TLA+ spec checked by TLC; trace validation of histories on a shared directory; differential decoding with libzstd",
    design="4/C20"),
@@ -131,7 +131,7 @@ CLAIMED = {
    text="Unpack.tla is a path algebra (cleaning joins, symlink resolution through the tree built so far) plus the decoder and disk writer as coded; TLC proves "
         "Confined for every archive of <= 3 entries over a hostile name alphabet with name validation on, and shows the escape with it off (the defect F9, fixed). "
         "Hostile archives from an independent encoder (all of <= 2 entries, random longer ones, well-formed names in hostile orders such as symlink-then-directory) "
-        "are unpacked by the real UnTar/UnTarIndex as root into a sandbox whose surroundings are snapshotted before and after.",
+        "are unpacked by the real UnTar/UnTarIndex as root into a sandbox whose surroundings are snapshotted before and after. Root entries of every kind (directory, file, symlink inside/outside) with the destination present or absent, symlink entries carrying extended attributes, and xattrs of everything outside the destination are part of the snapshot (finding F22 fixed).",
    note="LocalFS only (the tar/mtree writers do not touch the filesystem). Symlinks created by the archive may point outside (that is allowed); following them is not.",
    technique="TLA+ spec checked by TLC over all small archives; trace validation of real unpack runs in a sandbox",
    design="4/C18"),
@@ -161,14 +161,14 @@ CLAIMED = {
         "order, sorted children and xattrs, and every goodbye table (items = children's back-offsets/sizes/name hashes laid out as a complete BST in array form, "
         "tail item), and rebuilding the node list. TLC checks the BST layout for all n <= 200-600. Archives written by the real Tar from random trees built as "
         "root (all attribute kinds), from every fan-out, from disk and from tar streams, and casync-made fixtures, are tokenised independently and recognised; "
-        "the reconstructed node list must equal the source tree.",
+        "the reconstructed node list must equal the source tree. The real `desync tar` onto an existing larger archive and with equivalent spellings of the source directory is followed by untar (CliOutcome.tla).",
    note="SipHash-2-4 and the byte tokeniser are independent leaves in harness/oracle, validated on casync fixtures.",
    technique="TLA+ grammar/recogniser evaluated by TLC on element traces of real archives; BST layout checked by TLC",
    design="4/C13"),
  "C05": dict(
    text="On top of the C13 machinery: every archive's reconstructed node list equals the source tree, packing twice gives identical bytes, and the trees unpacked "
         "by the real UnTar, UnTarIndex (ChunkStream + LocalStore, 64-512 byte chunks) and the tar writer are compared field by field with the source tree "
-        "(path, type, mode incl. set-id/sticky, owner, target, xattrs, device numbers, content, mtime with ns). Deviations of the unchanged code are reported as known findings.",
+        "(path, type, mode incl. set-id/sticky, owner, target, xattrs, device numbers, content, mtime with ns). Deviations of the unchanged code are reported as known findings. The real `desync tar`/`untar` (catar and caidx, onto an existing larger archive, source directory spelled in equivalent ways) are run end to end (CliOutcome.tla).",
    note="Three known findings (F11 directory/symlink mtimes, F18-F19 tar writer mode/device, F20 tar writer xattrs). SHA256 mode and mtree output not exercised.",
    technique="TLA+ grammar + tree comparison evaluated by TLC on traces of real pack/unpack runs",
    design="4/C05"),
